@@ -121,6 +121,10 @@ def faults(g):
     add("block-def-clash", '<%def name="dup8()">1</%def><%block name="dup8">2</%block>', at=len('<%def name="dup8()">1</%def>'))
     add("named-block-in-def", '<%def name="d9()">a<%block name="nb9">x</%block></%def>', at=len('<%def name="d9()">a'))
     add("named-block-in-call", '<%call expr="f()">a<%block name="nb9">x</%block></%call>', at=len('<%call expr="f()">a'))
+    nsp = '<%namespace name="nq9">\n<%def name="nd9()">d</%def>\n' + "\n" * k + "  "
+    add("anon-block-in-namespace", nsp + "<%block>x</%block>\n</%namespace>", at=len(nsp))
+    nsp2 = '<%namespace name="nq8"> <%def name="nd8()">d</%def> '
+    add("anon-block-in-namespace-same-line", nsp2 + "<%block>x</%block></%namespace>", at=len(nsp2))
     add("illegal-attribute", '<%def name="d9()" foo="1">x</%def>')
     add("missing-attribute", "<%def>x</%def>")
     add("missing-attribute-include", "<%include/>")
